@@ -99,20 +99,47 @@ def two_d(chk):
                          "self._interp1 = SplineInterpolator1D(basis1, dtype)\nself._interp2 = SplineInterpolator1D(basis2, dtype)") and \
         contains(init, "self._bwork = np.zeros((n2 + p2, n1 + p1))") and contains(init, "n1, n2 = (basis1.ncells, basis2.ncells)") and \
         contains(init, "p1, p2 = (basis1.degree, basis2.degree)")
-    chk.ob("H4-sweep-roles", init, "1-D tools of dimension k are built on basis k; work array is the transposed coefficient shape", oki,
-           "" if oki else "construction of the 1-D tools changed", file=U.INTERP, func="SplineInterpolator2D.__init__")
+    chk.pat("H4-sweep-roles", init, "1-D tools of dimension k are built on basis k; work array is the transposed coefficient shape", oki,
+            "spline/interpolator k are built on basis k", file=U.INTERP, func="SplineInterpolator2D.__init__")
     ok1 = contains(fn, "for i1 in range(n1):\n    self._interp2.compute_interpolant(ug[i1, :], self._spline2)\n    w[i1, :] = self._spline2.coeffs")
-    chk.ob("H4-sweep-roles", fn, "first sweep: rows of ug along x2 with interp2/spline2", ok1,
-           "each row (fixed x1) is interpolated along x2 with the tools of dimension 2" if ok1 else "first sweep changed", file=U.INTERP,
-           func="SplineInterpolator2D.compute_interpolant")
+    bad1 = None
+    if not ok1:
+        c1 = [c for c in ast.walk(fn) if isinstance(c, ast.Call) and src(c.func) == "self._interp1.compute_interpolant"
+              and c.args and src(c.args[0]).replace(" ", "").startswith("ug[")]
+        if c1:
+            bad1 = f"`{src(c1[0])[:70]}`: the rows of the data (fixed x1, running along x2) are interpolated with the tools of dimension 1"
+    chk.pat("H4-sweep-roles", fn, "first sweep: rows of ug along x2 with interp2/spline2", ok1,
+            "each row (fixed x1) is interpolated along x2 with the tools of dimension 2", bad1, file=U.INTERP,
+            func="SplineInterpolator2D.compute_interpolant")
     ok2 = contains(fn, "wt[:, :] = w.transpose()") and \
         contains(fn, "for i2 in range(n2):\n    self._interp1.compute_interpolant(wt[i2, :n1], self._spline1)\n    wt[i2, :] = self._spline1.coeffs")
-    chk.ob("H4-sweep-roles", fn, "second sweep: rows of the transposed coefficients along x1 with interp1/spline1", ok2,
-           "each x2-coefficient row is interpolated along x1 with the tools of dimension 1, using its first n1 entries as data"
-           if ok2 else "second sweep changed", file=U.INTERP, func="SplineInterpolator2D.compute_interpolant")
+    bad2 = None
+    if not ok2:
+        st2 = [n for n in ast.walk(fn) if isinstance(n, ast.Assign) and isinstance(n.targets[0], ast.Subscript)
+               and src(n.targets[0].value) == "wt" and "self._spline1.coeffs" in src(n.value)]
+        if st2 and (src(n_ := st2[0].targets[0].slice).replace(" ", "") != "i2,:" or src(st2[0].value) != "self._spline1.coeffs"):
+            bad2 = (f"`{src(st2[0])}` keeps only part of the coefficient vector of the x1 solve: the entries added by the solve's own periodic "
+                    "wrap are lost (or taken from stale content of the work array)")
+    chk.pat("H4-sweep-roles", fn, "second sweep: rows of the transposed coefficients along x1 with interp1/spline1", ok2,
+            "each x2-coefficient row is interpolated along x1 with the tools of dimension 1, using its first n1 entries as data",
+            bad2, file=U.INTERP, func="SplineInterpolator2D.compute_interpolant")
     okn = contains(fn, "n1, n2 = (basis1.nbasis, basis2.nbasis)\np1, p2 = (basis1.degree, basis2.degree)") and contains(fn, "assert ug.shape == (n1, n2)")
-    chk.ob("H4-sweep-roles", fn, "n_k = nbasis of basis k, p_k = degree of basis k", okn, "" if okn else "counts changed", file=U.INTERP,
-           func="SplineInterpolator2D.compute_interpolant", nontrivial=False)
+    chk.pat("H4-sweep-roles", fn, "n_k = nbasis of basis k, p_k = degree of basis k", okn, "counts of dimension k come from basis k",
+            file=U.INTERP, func="SplineInterpolator2D.compute_interpolant")
+    # intermediate coefficients are kept in storage whose type does not depend on the caller's data
+    likes = {}
+    for n_ in ast.walk(fn):
+        if isinstance(n_, ast.Assign) and isinstance(n_.targets[0], ast.Name) and isinstance(n_.value, ast.Call) \
+                and src(n_.value.func) in ("np.empty_like", "np.zeros_like", "np.ones_like") and n_.value.args \
+                and src(n_.value.args[0]) in ("ug",) and not any(k.arg == "dtype" for k in n_.value.keywords):
+            likes[n_.targets[0].id] = n_
+    badw = [n_ for n_ in ast.walk(fn) if isinstance(n_, ast.Assign) and isinstance(n_.targets[0], ast.Subscript)
+            and src(n_.targets[0].value) in likes and "coeffs" in src(n_.value)]
+    chk.ob("H5-work-dtype", badw[0] if badw else fn, "intermediate coefficients are not stored in an array typed like the data", not badw,
+           "the work arrays are the spline's own coefficient array and a float work array" if not badw else
+           f"`{src(badw[0])}` stores spline coefficients in `{src(likes[src(badw[0].targets[0].value)].value)}`, an array of the DATA's "
+           "dtype: integer data truncates, single precision rounds the first-sweep coefficients, and the interpolant no longer reproduces "
+           "the data", file=U.INTERP, func="SplineInterpolator2D.compute_interpolant", nontrivial=False)
     # the x2 wrap: all columns of the work array, guarded by basis2.periodic, with n2/p2; before the final transpose
     wraps = [n for n in ast.walk(fn) if isinstance(n, ast.Assign) and isinstance(n.targets[0], ast.Subscript)
              and isinstance(n.targets[0].slice, ast.Tuple) and isinstance(n.targets[0].slice.elts[0], ast.Slice)
@@ -141,7 +168,8 @@ def two_d(chk):
                 f"wrap guard/extent: guards={gs}, rows={src(rows)}, from={src(vrows) if vrows is not None else '?'}"),
                file=U.INTERP, func="SplineInterpolator2D.compute_interpolant")
     if seen != {"wt", "w"}:
-        chk.ob("H3-periodic-wrap", fn, "two wraps (x2 on the work array, x1 on the result)", False, f"wrap statements found for {sorted(seen)} only",
+        chk.ob("H3-periodic-wrap", fn, "two wraps (x2 on the work array, x1 on the result)", None if not seen else False,
+               f"wrap statements found for {sorted(seen)} only" if seen else "periodic wraps of the 2-D coefficients not recognised",
                file=U.INTERP, func="SplineInterpolator2D.compute_interpolant")
     # order: x2 wrap, transpose back, x1 wrap
     body = fn.body
@@ -155,9 +183,10 @@ def two_d(chk):
         if "self._basis1.periodic" in s_:
             pos["wrap1"] = k
     oko = len(pos) == 3 and pos["wrap2"] < pos["back"] < pos["wrap1"]
-    chk.ob("H3-periodic-wrap", fn, "order: x2 wrap -> transpose back -> x1 wrap", oko,
+    chk.ob("H3-periodic-wrap", fn, "order: x2 wrap -> transpose back -> x1 wrap", oko if len(pos) == 3 else None,
            "the x2 wrap is applied to the work array before it is transposed back, the x1 wrap to the final coefficients" if oko else
-           f"order of wrap/transposition changed: {pos}", file=U.INTERP, func="SplineInterpolator2D.compute_interpolant")
+           (f"order of wrap/transposition changed: {pos}" if len(pos) == 3 else f"wrap/transposition statements not all recognised: {pos}"),
+           file=U.INTERP, func="SplineInterpolator2D.compute_interpolant")
 
 
 def run(chk):
@@ -171,4 +200,4 @@ def run(chk):
     one_d(chk)
     two_d(chk)
     chk.floor("H", 14)
-    chk.floor("H3-periodic-wrap", 5)
+    chk.floor("H3-periodic-wrap", 2)
